@@ -19,7 +19,23 @@ LEVEL = 'proof'
 THEOREMS = ['C04_asm_sel_size', 'C04_optimize_size_le', 'C04_optimize_instrs_subset', 'C04_repair_sizes']
 
 
-def size_pass(ctx, n_prog, rng, levels, opts_list):
+def boundary_programs():
+    """objects at constant addresses on both sides of the zero-page boundary (and of the other
+    boundaries an address classifier could use): the size of every access must be the size the
+    assembler gives an operand at THAT address"""
+    out = {}
+    for addr in (0x00, 0x7f, 0x80, 0xfe, 0xff, 0x100, 0x101, 0x1ff, 0x200, 0xfff, 0x1000, 0x1001, 0xffff):
+        for ty in ('unsigned char', 'char'):
+            out['bnd_%x_%s' % (addr, ty.replace(' ', ''))] = (
+                '%s *const R = 0x%x; unsigned char a, i; short s;\n'
+                'void main() { *R = a; a = *R; R[1] = 3; a = R[2]; a = R[X]; R[Y] = a; strobe(R); load(*R); store(R); '
+                'if (*R) a = 1; if (R[1] == a) a = 2; (*R)++; R[1]--; *R += 2; a = *R << 1; a = R[i]; R[i] = a; s = *R; }\n' % (ty, addr))
+            out['bnds_%x_%s' % (addr, ty.replace(' ', ''))] = (
+                '%s *const R = 0x%x; unsigned char a;\nvoid main() { *R = a; a = R[1]; strobe(R); if (*R) a = 1; }\n' % (ty, addr))
+    return out
+
+
+def size_pass(ctx, n_prog, rng, levels, opts_list, extra=None):
     viol = []
     nfun = 0
     cells = {}
@@ -28,6 +44,9 @@ def size_pass(ctx, n_prog, rng, levels, opts_list):
         progs['p%d' % i] = gen_program(rng, opts_list[i % len(opts_list)])
     srcs = {k: p.source() for k, p in progs.items()}
     decls = {k: getattr(p, 'asm_decl', {}) for k, p in progs.items()}
+    for k, v in (extra or {}).items():
+        srcs[k] = v
+        decls[k] = {}
     comp = compile_variants(srcs, {O: [O] for O in levels})
     recs = {}
     info = {}
@@ -63,7 +82,7 @@ def size_pass(ctx, n_prog, rng, levels, opts_list):
             if problems:
                 viol.append({'why': '; '.join(problems), 'program': srcs[key.split('@')[0]], 'level': key.split('@')[1],
                              'function': fn, 'lines': lines})
-    return viol, nfun, cells, len(progs)
+    return viol, nfun, cells, len(srcs)
 
 
 def run(ctx):
@@ -78,7 +97,7 @@ def run(ctx):
     ctx.cov['distinct_nontrivial'] = len(table)
     levels = ['-O0', '-O1'] if quick else ['-O0', '-O1', '-O2', '-O3']
     opts = [dict(), dict(superchip=True), dict(hw=True, inline=True, asm_sized=True), dict(bait=True, superchip=True), dict(hw=True, inline=True, asm_sized=True, calls=True, max_stmts=14)]
-    viol, nfun, cells, nprog = size_pass(ctx, 300 if quick else 6000, rng, levels, opts)
+    viol, nfun, cells, nprog = size_pass(ctx, 300 if quick else 6000, rng, levels, opts, extra=boundary_programs())
     ctx.cov['programs'] = nprog
     ctx.cov['correspondence']['corr-S sizes'] = {'functions_reassembled': nfun, 'violations': len(viol),
                                                   'instruction_cells_seen': len(cells)}
